@@ -55,6 +55,11 @@ class BaseKernel:
                 rows[i][j] = rows[j][i] = self.real("%s_%d_%d" % (name, i, j))
         return self.np.array(rows)
 
+    def spd_matrix(self, name, n):
+        """A symmetric positive definite matrix (information matrix).  Symbolically: a symmetric matrix of free
+        symbols (proving for all symmetric matrices is the stronger statement); numerically: L L^T + small I."""
+        return self.sym_matrix(name, n)
+
     def pose(self, T, name, unit=True):
         """A pose of type T built through the real constructor from symbolic components."""
         r = self.r
@@ -237,6 +242,18 @@ class NumKernel(BaseKernel):
     def opaque(self, name):
         return self.real(name)
 
+    def spd_matrix(self, name, n):
+        names = [["%s_%d_%d" % (name, min(i, j), max(i, j)) for j in range(n)] for i in range(n)]
+        flat = {nm for row in names for nm in row}
+        if not all(nm in self.point or nm in self.draws for nm in flat):
+            L = [[self.rng.gauss(0, 1) if j <= i else 0.0 for j in range(n)] for i in range(n)]
+            scale = math.exp(self.rng.uniform(-1, 2))
+            for i in range(n):
+                for j in range(i, n):
+                    v = scale * (sum(L[i][t] * L[j][t] for t in range(n)) + (0.05 if i == j else 0.0))
+                    self.draws.setdefault(names[i][j], v)
+        return self.np.array([[self._get(names[i][j], lambda: 0.0) for j in range(n)] for i in range(n)])
+
     # ---- preconditions
     def assume(self, cond, label=""):
         if not bool(cond):
@@ -335,6 +352,9 @@ class NumKernel(BaseKernel):
 
     def value(self, x):
         return float(x)
+
+    def set_solver_model(self, model):
+        """Numerically the real spsolve is used."""
 
     def system_equiv(self, A_code, rhs_code, A_spec, rhs_spec, dx, label, fixed_idx=()):
         """Numeric reading: the vector the real solver returned for the code's system solves the spec system."""
